@@ -330,7 +330,7 @@ def eval_iee(s, bt, case):
     i_tab = bt.add(f"iee_tab {case['k1']} {case['k2']} {case['kba']} {btok}")
     ok = s.expect(r_ct[0] == "ok", case, "Iee.encrypt_image raised on a valid configuration (for the unclaimed CTR variants: a crash)", r_ct)
     ok = s.expect(r_tab[0] == "ok", case, "Iee.encrypt_key_blobs raised on a valid configuration", r_tab) and ok
-    i_hw = i_un = None
+    i_hw = i_un = i_hwx = None
     if ok:
         ct, tab = r_ct[1], r_tab[1]
         common = f"{case['k1']} {case['k2']} {case['kba']} {len(blobs)} {tok(tab)}"
@@ -346,6 +346,8 @@ def eval_iee(s, bt, case):
                  "IEE: encrypting the image in two page-aligned pieces differs from encrypting it at once", sp)
         if claimed:
             i_hw = bt.add(f"iee_hwtab {common} {base} {tok(ct)}")
+        if all(b["po"] == 0 for b in blobs):
+            i_hwx = bt.add(f"iee_hwtabx {common} {base} {tok(ct)}")
 
     def finish():
         s.compare(case, "ok:" + hexs(r_ct[1]) if r_ct[0] == "ok" else r_ct[0], bt[i_enc], "Iee.encrypt_image: model differs")
@@ -365,6 +367,77 @@ def eval_iee(s, bt, case):
             first = next((i for i in range(len(img)) if hw is None or i >= len(hw) or hw[i] != img[i]), None)
             s.expect(good, case, "IEE: the engine programmed from the exported key blobs does not read the plaintext back from SPSDK's ciphertext",
                      None if first is None else {"first_bad_address": hex(base + first)}, "plaintext")
+        if i_hwx is not None and bt[i_hwx] is not None:
+            hw = unhex_ok(bt[i_hwx])
+            good = hw is not None and len(hw) == len(r_ct[1]) and hw[:len(img)] == img and not any(hw[len(img):])
+            first = next((i for i in range(len(img)) if hw is None or i >= len(hw) or hw[i] != img[i]), None)
+            s.expect(good, case, "IEE (all five modes, assumptions A-PO/A-CTR): the extended engine programmed from the exported key blobs does "
+                     "not read the plaintext back from SPSDK's ciphertext",
+                     None if first is None else {"first_bad_address": hex(base + first)}, "plaintext")
+    return finish
+
+
+def gen_ieex_case(rng):
+    """One region, IeeKeyBlob.encrypt_image called for the LOGICAL address L = p + 4096 * page_offset; the extended engine
+    reads at the SYSTEM address p: CTR modes at any 16-byte aligned p, XTS at page-aligned p."""
+    mode = rng.choice([2, 3, 4, 3, 4, 1])
+    s0 = 4096 * rng.randrange(0, 1 << 19)
+    pages = rng.randrange(1, 9)
+    b = {"lock": rng.random() < 0.5, "ks": rng.choice([0, 1]), "mode": mode, "s": s0, "e": s0 + 4096 * pages,
+         "po": rng.choice([0, 1, 3, rng.randrange(0, 1 << 12), rng.randrange(0, 1 << 20), (1 << 32) - 1 - rng.randrange(0, 4)])}
+    k1, k2 = iee_sizes(b)
+    b["k1"] = hx(rng.randbytes(k1))
+    if mode == 1:
+        p = s0 + 4096 * rng.randrange(0, pages)
+        length = rng.choice([1, 16, 17, 4095, 4096, 4097, rng.randrange(1, 4096 * (pages - (p - s0) // 4096) + 1)])
+        length = min(length, s0 + 4096 * pages - p)
+    else:
+        p = s0 + 16 * rng.randrange(0, 256 * pages)
+        length = rng.choice([0, 1, 15, 16, 17, 100, 4096, rng.randrange(0, 6000)])
+    key2 = bytearray(rng.randbytes(k2))
+    logical = p + 4096 * b["po"]
+    if mode >= 2 and rng.random() < 0.6:
+        # counter word next to the 32-bit wrap for the LOGICAL block address (stored byte-reversed in the last word of key2)
+        word = (-(logical >> 4) - rng.randrange(0, max(1, length // 16 + 2))) & M32
+        key2[12:16] = word.to_bytes(4, "big")[::-1]
+    b["k2"] = hx(key2)
+    return {"k": "ieex", "img": [length, rng.getrandbits(32)], "p": p, "blobs": [b], "k1": hx(rng.randbytes(32)),
+            "k2": hx(rng.randbytes(32)), "kba": 4096 * rng.getrandbits(20)}
+
+
+def eval_ieex(s, bt, case):
+    img = mk_image(case["img"][1], case["img"][0])
+    b, p = case["blobs"][0], case["p"]
+    logical = p + 4096 * b["po"]
+    wraps = b["mode"] >= 2 and (int.from_bytes(bytes.fromhex(b["k2"])[12:16][::-1], "big") + (logical >> 4) + len(img) // 16 >= 1 << 32)
+    s.note(case, nontrivial=len(img) > 0,
+           cls=IEE_MODES[b["mode"]] + ("128" if b["ks"] == 0 else "256") + ("/po" if b["po"] else "/po0")
+           + ("/unaligned" if p % 4096 else "/page") + ("/wrap" if wraps else ""))
+    r_make = pyres(iee_make, case)
+    if not s.expect(r_make[0] == "ok", case, "a valid IEE key-blob configuration is refused", r_make):
+        return None
+    o = r_make[1]
+    r_ct = pyres(o._key_blobs[0].encrypt_image, logical, img)
+    r_tab = pyres(o.encrypt_key_blobs, bytes.fromhex(case["k1"]), bytes.fromhex(case["k2"]), case["kba"])
+    i_enc = bt.add(f"iee_kb_enc {iee_blob_tok(b)} {logical} {tok(img)}")
+    ok = s.expect(r_ct[0] == "ok", case, "IeeKeyBlob.encrypt_image raised on a valid blob / 16-byte aligned address", r_ct)
+    ok = s.expect(r_tab[0] == "ok", case, "Iee.encrypt_key_blobs raised on a valid configuration", r_tab) and ok
+    i_hw = None
+    if ok:
+        ct = r_ct[1]
+        s.expect(len(ct) == ceil16(len(img)), case, "IeeKeyBlob.encrypt_image: impossible ciphertext length", len(ct), ceil16(len(img)))
+        common = f"{case['k1']} {case['k2']} {case['kba']} 1 {tok(r_tab[1])}"
+        i_hw = bt.add(f"iee_ctrx {common} 0 {p} {tok(ct)}" if b["mode"] >= 2 else f"iee_hwtabx {common} {p} {tok(ct)}")
+
+    def finish():
+        s.compare(case, "ok:" + hexs(r_ct[1]) if r_ct[0] == "ok" else r_ct[0], bt[i_enc], "IeeKeyBlob.encrypt_image: model differs")
+        if i_hw is not None and bt[i_hw] is not None:
+            hw = unhex_ok(bt[i_hw])
+            good = hw is not None and len(hw) == len(r_ct[1]) and hw[:len(img)] == img and not any(hw[len(img):])
+            first = next((i for i in range(len(img)) if hw is None or i >= len(hw) or hw[i] != img[i]), None)
+            s.expect(good, case, "IEE (assumptions A-PO/A-CTR): the region context parsed from the exported key blob does not read back, at the "
+                     "system address, what IeeKeyBlob.encrypt_image wrote for the logical address",
+                     None if first is None else {"first_bad_address": hex(p + first)}, "plaintext")
     return finish
 
 
@@ -1240,7 +1313,7 @@ def fixed_cases():
     return out
 
 
-EVAL = {"ctor": eval_ctor, "sb21": eval_sb21, "cli_otfad": eval_cli, "cli_iee": eval_cli, "cli_bee": eval_cli, "otfad": eval_otfad, "iee": eval_iee, "bee": eval_bee, "kb": eval_direct, "tab": eval_direct, "ieekb": eval_direct,
+EVAL = {"ctor": eval_ctor, "sb21": eval_sb21, "cli_otfad": eval_cli, "cli_iee": eval_cli, "cli_bee": eval_cli, "otfad": eval_otfad, "iee": eval_iee, "ieex": eval_ieex, "bee": eval_bee, "kb": eval_direct, "tab": eval_direct, "ieekb": eval_direct,
         "beeblk": eval_direct, "otfadnxp": eval_nxp, "ieenxp": eval_nxp}
 
 
@@ -1256,7 +1329,7 @@ def run_cases(s, drv, cases, chunk=120):
 
 # driver ops that evaluate ONLY lean/SpsdkVerif/Spec/FlashEncHw.lean (+ Crypto/*): the hardware / ROM side with hand-written
 # constants, independent of Generated/ and of the model of the code.  Every s.expect() that looks at a driver answer uses one of these.
-SPEC_OPS = {"otfad_hw", "otfad_hwtab", "otfad_unwrap", "iee_unwrap", "iee_hwtab", "bee_hw", "bee_unhdr", "bee_hwhdr"}
+SPEC_OPS = {"otfad_hw", "otfad_hwtab", "otfad_unwrap", "iee_unwrap", "iee_hwtab", "iee_hwtabx", "iee_ctrx", "bee_hw", "bee_unhdr", "bee_hwhdr"}
 
 
 def setup(ck):
@@ -1273,7 +1346,10 @@ def setup(ck):
         "IEE engine: regions are [start_address, end_address) as in SPSDK's configuration files, tweak = address >> 12 little endian, "
         "AES-CTR with address binding adds address >> 4 to the low counter word (mod 2^32), page_offset is not applied by the model",
         "BEE engine: counter = nonce[0:12] || BE32(address >> 4); the random padding SPSDK appends to a short last block is not compared",
-        "IEE modes AesCTRWOAddress / AesCTRkeystream: only 'no crash' and model correspondence are checked (as the property says)",
+        "IEE extended engine (Phase 3; NOT taken from a data sheet, the source describes neither): A-PO the region is selected by the "
+        "system address, tweak / counter are formed from system address + 4 KiB * page_offset (SPSDK's data address = that logical "
+        "address); A-CTR the modes AesCTRWOAddress / AesCTRkeystream form the counter like AesCTRWAddress (theorem iee_ctr_engine_only: "
+        "no other counter can read SPSDK's output back)",
         "KeyBlob constructor arguments zero_fill (always) and crc (15 %) are pinned; with the default random zero_fill only the unwrapped fields are checked")
     return drv
 
@@ -1297,7 +1373,8 @@ def run(ck):
     run_cases(s, drv, [gen_iee_case(rng, i % 9 == 0) for i in range(ck.budget(380, 9000))])
 
     s = ck.stream("iee_other_ctr", "regions in AesCTRWOAddress / AesCTRkeystream (mixed with claimed modes): no crash, lengths, untouched "
-                  "outside, model correspondence; no hardware comparison (not claimed by the property)")
+                  "outside, model correspondence; with page offset 0 the extended engine (assumption A-CTR) programmed from the exported "
+                  "key blobs reads the plaintext back")
     run_cases(s, drv, [gen_iee_case(rng, False, claimed_only=False) for i in range(ck.budget(60, 1500))])
 
     s = ck.stream("bee", "one or two engines with 1..4 FAC regions each (disjoint, 1 KiB aligned), 16-byte aligned bases (1 KiB aligned "
@@ -1325,6 +1402,11 @@ def run(ck):
     s = ck.stream("cli", "nxpimage otfad|iee|bee export through click's CliRunner (load_from_config, schema validation, written files): whole image "
                   "= API path; the engine programmed from the WRITTEN key-blob table / key-blob file / BEE region headers reads the data back")
     run_cases(s, drv, gen_cli_cases(rng, ck.budget(15, 300)), chunk=6)
+
+    s = ck.stream("iee_ctr_any_addr", "one region in any CTR mode (or XTS) with a page offset: IeeKeyBlob.encrypt_image for the logical "
+                  "address p + 4 KiB * page_offset, p ANY 16-byte aligned address (XTS: page aligned), lengths incl. 0/1/15/16/17, counter "
+                  "words wrapping at 2^32 inside the data; the region context parsed from the EXPORTED key blob reads it back at p")
+    run_cases(s, drv, [gen_ieex_case(rng) for i in range(ck.budget(160, 4000))])
 
 
 def replay(ck, data):
